@@ -168,6 +168,8 @@ def gate_oracle(c, toks):
     if val("G2ALUNALLOC"):
         return ("vec-g2al-returns-before-allocation", "%s: grow_to_at_least(n) returned while a segment below n (owned by a growth call of another thread that is still in flight) "
                 "is not allocated: capacity() < n, size() < n and v[i] for such i < n dereferences a null segment" % gate_describe(c))
+    if val("NOSTORE"):
+        return ("vec-size-covers-unallocated", "%s: size() covers %d index(es) that have no storage (segment missing after a failed allocation): v[i] for i < size() touches unallocated memory" % (gate_describe(c), val("NOSTORE")))
     if val("ACCBAD"):
         return ("vec-access-unallocated", "%s: at(i) returned an address outside live memory" % gate_describe(c))
     if toks and toks[-1] == "HANG":
@@ -190,7 +192,7 @@ def gen_gate(ctx, n):
             ops = []
             for _ in range(ln):
                 op = rng.choice([0, 1, 1, 2])
-                a = rng.choice([1, 2, 3, 5, 7, 9, 17]) if op == 0 else (rng.choice([2, 4, 8, 9, 16, 17, 20, 33]) if op == 2 else 0)
+                a = rng.choice([1, 2, 3, 5, 7, 9, 17, 24, 56]) if op == 0 else (rng.choice([2, 4, 8, 9, 16, 17, 20, 33, 64]) if op == 2 else 0)
                 ops += [op, a]
             c += [ln] + ops
         c.append(-1)
